@@ -122,6 +122,24 @@ def apply_fault(text, f):
         else:
             new = "/*" + "c" * L + "*/"
         return text[:s] + new + text[e:], True, cls
+    if kind == "extreme":
+        # an instance name, a reference or an integer replaced by a value at the edge of the machine's integer types
+        cls = f.get("cls", "ref")
+        cands = [t for t in toks if t[2] == cls and (cls != "number" or text[t[0]:t[1]].lstrip("+-").isdigit())]
+        if not cands:
+            return text, False, "no-" + cls
+        if f.get("pair"):
+            # two instance NAMES: one gets the extreme value, the next one an id the manager has to replace (0, or the same value again)
+            names = [t for n_, t in enumerate(toks) if t[2] == "ref" and n_ + 1 < len(toks) and text[toks[n_ + 1][0]:toks[n_ + 1][1]] == "="]
+            if len(names) >= 2:
+                k = f["tok"] % (len(names) - 1)
+                (s1, e1, _), (s2, e2, _) = names[k], names[k + 1]
+                v = "#" + str(f.get("value", "2147483647"))
+                second = "#0" if f["pair"] == "zero" else v
+                return text[:s1] + v + text[e1:s2] + second + text[e2:], True, "extreme-name-pair"
+        s, e, tk = cands[f["tok"] % len(cands)]
+        new = ("#" if cls == "ref" else "") + str(f.get("value", "2147483647"))
+        return text[:s] + new + text[e:], text[s:e] != new, "extreme-" + cls
     if kind == "paren":
         if not toks:
             return text, False, "no-tokens"
@@ -214,9 +232,18 @@ def apply_all(text, faults):
 def gen_fault(r, kinds=None, schema_names=None):
     """one seeded fault"""
     kinds = kinds or ["truncate", "flip", "nul", "hibit", "tok-del", "tok-dup", "tok-swap", "stretch", "paren", "nest",
-                      "complex-parts", "illegal-complex", "garble", "garble"]
+                      "complex-parts", "illegal-complex", "garble", "garble", "extreme"]
     k = r.choice(kinds)
     big = r.randint(0, 10 ** 9)
+    if k == "extreme":
+        cls = r.choice(["ref", "ref", "number"])
+        vals = ["0", "2147483647", "2147483648", "4294967295", "4294967296", "9223372036854775807", "9223372036854775808", "18446744073709551616", "99999999999999999999"]
+        if cls == "number":
+            vals += ["-2147483648", "-2147483649", "-9223372036854775808", "-9223372036854775809"]
+        f = {"kind": k, "tok": big, "cls": cls, "value": r.choice(vals)}
+        if cls == "ref" and r.random() < 0.4:
+            f["pair"] = r.choice(["zero", "same"])
+        return f
     if k == "truncate":
         return {"kind": k, "at": big, "bias": "complex"} if r.random() < 0.3 else {"kind": k, "at": big}
     if k == "flip":
@@ -312,8 +339,10 @@ def apply_express_fault(text, f):
         elif cls == "number":
             new = old + "7" * L
         else:
-            new = "'" + "s" * L + "'"
-        return text[:s] + new + text[e:], True, cls
+            # what a tool copies, escapes or re-quotes while printing: plain letters, backslashes, doubled apostrophes, percent signs, double quotes
+            fill = f.get("fill", "s")
+            new = "'" + (fill * (L // len(fill) + 1))[:L // len(fill) * len(fill)] + "'"
+        return text[:s] + new + text[e:], True, cls + (":" + {"\\": "backslash", "''": "apostrophe", "%": "percent", '"': "dquote"}.get(f.get("fill", "s"), "") if f.get("fill", "s") != "s" else "")
     if kind == "nest":
         d = int(f.get("depth", 100))
         what = f.get("what", "paren")
@@ -422,7 +451,10 @@ def gen_express_fault(r):
     if k in ("tok-del", "tok-dup", "tok-swap"):
         return {"kind": k, "tok": big}
     if k == "stretch":
-        return {"kind": k, "tok": big, "cls": r.choice(["keyword", "number", "string", "comment", "tail"]), "len": r.choice([300, 1000, 10000, 50000, 100000])}
+        f = {"kind": k, "tok": big, "cls": r.choice(["keyword", "number", "string", "string", "comment", "tail"]), "len": r.choice([300, 1000, 10000, 50000, 100000])}
+        if f["cls"] == "string":
+            f["fill"] = r.choice(["s", "s", "\\", "\\", "''", "%", '"'])
+        return f
     if k == "nest":
         return {"kind": k, "tok": big, "what": r.choice(["paren", "comment"]), "depth": r.choice([5, 30, 100, 1000]), "unbalanced": r.random() < 0.3}
     if k == "nonascii":
@@ -435,7 +467,7 @@ def pathological_schema(r):
     c = r.choice(["deep-scopes", "deep-if", "deep-expr", "long-remark", "long-string", "long-identifier", "many-entities", "deep-select", "deep-subtype",
                   "use-cycle", "use-cycle", "self-use", "function-as-value", "long-binary", "long-encoded", "wide-expr", "deep-aggregate-type", "deep-index",
                   "deep-query", "many-params", "supertype-expr", "subtype-cycle", "select-cycle", "type-cycle", "long-where-label", "many-enum-items",
-                  "rename-clash", "derive-cycle", "kind-confusion", "kind-confusion", "kind-confusion", "same-name-across-schemas", "same-name-across-schemas"])
+                  "rename-clash", "derive-cycle", "kind-confusion", "kind-confusion", "kind-confusion", "same-name-across-schemas", "same-name-across-schemas", "escape-heavy", "escape-heavy"])
     n = r.choice([21, 30, 100])
     multi = _patho_more(r, c, n)
     if multi is not None:
@@ -507,6 +539,19 @@ def _patho_more(r, c, n):
                 "TYPE t = INTEGER;\nEND_TYPE;\nFUNCTION f (a : t) : t;\nRETURN (a);\nEND_FUNCTION;\nEND_SCHEMA;\n"
                 "SCHEMA b;\n%sENTITY x%s;\n m : REAL;\nEND_ENTITY;\nENTITY leaf SUBTYPE OF (x);\nEND_ENTITY;\nENTITY other SUBTYPE OF (x);\nEND_ENTITY;\n"
                 "TYPE t = REAL;\nEND_TYPE;\nFUNCTION f (a : t) : t;\nRETURN (a);\nEND_FUNCTION;\nEND_SCHEMA;\n" % (sup_a, x_a, link, x_b))
+    if c == "escape-heavy":
+        # string literals full of characters that a printer has to escape or double, wherever a tool re-prints an expression:
+        # DERIVE initializers, WHERE rules, constants, CASE labels, default values of locals
+        L = r.choice([300, 9000, 9000, 100000])
+        fill = r.choice(["\\", "\\", "''", "%", '"', "\\n", "%s", "a\\"])
+        lit = "'" + (fill * (L // len(fill))) + "'"
+        where = r.choice(["derive", "derive", "where", "constant", "local", "case"])
+        body = {"derive": "ENTITY e;\n n : STRING;\nDERIVE\n d : STRING := %s;\nEND_ENTITY;\n",
+                "where": "ENTITY e;\n n : STRING;\nWHERE\n w : n <> %s;\nEND_ENTITY;\n",
+                "constant": "CONSTANT\n c : STRING := %s;\nEND_CONSTANT;\nENTITY e;\n n : STRING;\nEND_ENTITY;\n",
+                "local": "FUNCTION f (a : STRING) : STRING;\nLOCAL\n v : STRING := %s;\nEND_LOCAL;\nRETURN (v);\nEND_FUNCTION;\n",
+                "case": "FUNCTION f (a : STRING) : INTEGER;\nCASE a OF\n %s : RETURN (1);\n OTHERWISE : RETURN (0);\nEND_CASE;\nEND_FUNCTION;\n"}[where]
+        return "SCHEMA patho;\n" + body.replace("%s", lit, 1) + "END_SCHEMA;\n"
     if c == "long-binary":
         L = r.choice([300, 10000, 100000])
         return "SCHEMA patho;\nCONSTANT c : BINARY := %" + "".join(r.choice("01") for _ in range(L)) + ";\nEND_CONSTANT;\nEND_SCHEMA;\n"
